@@ -1,3 +1,5 @@
+import Std.Data.HashMap
+import Std.Data.HashSet
 /-!
 # Model of the lock-free ring queues (`common/lockfree_queue.h`), property C07 — sequential semantics
 
@@ -66,11 +68,13 @@ end Photon.Ring
 /-! ## acceptor for concurrent runs: what the consumers received, each in its own order -/
 namespace Photon.RingLog
 
+/-- The acceptor runs over logs of several 100 000 elements: the sets are hash containers (`Std.HashSet` / `Std.HashMap`), whose
+    `contains_insert` / `getElem?_insert` lemmas carry the theorems. -/
 structure St where
-  produced : Nat → Nat := fun _ => 0          -- producer -> number of items it sent (sequence numbers 0..n-1)
+  produced : Std.HashMap Nat Nat := {}                 -- producer -> number of items it sent (sequence numbers 0..n-1)
   prods : List Nat := []
-  recvd : Nat → Nat → Bool := fun _ _ => false -- (producer, seq) already received by somebody
-  last : Nat → Nat → Option Nat := fun _ _ => none   -- (consumer, producer) -> last sequence number seen
+  recvd : Std.HashSet (Nat × Nat) := {}                -- (producer, seq) already received by somebody
+  last : Std.HashMap (Nat × Nat) Nat := {}             -- (consumer, producer) -> last sequence number seen
   count : Nat := 0
 
 inductive Ev where
@@ -80,23 +84,24 @@ inductive Ev where
   | final
   deriving Repr
 
+def sentBy (s : St) (p : Nat) : Nat := s.produced.getD p 0
+
 def pre (s : St) (e : Ev) : Option String :=
   match e with
   | .produced _ _ => none
   | .got c p seq =>
-    if seq ≥ s.produced p then some "an element was received that was never sent"
-    else if s.recvd p seq then some "an element was received twice"
-    else match s.last c p with
+    if seq ≥ sentBy s p then some "an element was received that was never sent"
+    else if s.recvd.contains (p, seq) then some "an element was received twice"
+    else match s.last[(c, p)]? with
       | some l => if seq ≤ l then some "elements of one producer were received out of order by a consumer" else none
       | none => none
   | .maxavail n cap => if n > cap then some "the queue held more elements than its capacity" else none
-  | .final => if s.count ≠ (s.prods.map s.produced).sum then some "not every element that was sent has been received (lost)" else none
+  | .final => if s.count ≠ (s.prods.map (sentBy s)).sum then some "not every element that was sent has been received (lost)" else none
 
 def eff (s : St) (e : Ev) : St :=
   match e with
-  | .produced p n => { s with produced := fun x => if x = p then n else s.produced x, prods := s.prods ++ [p] }
-  | .got c p seq => { s with recvd := fun a b => if a = p ∧ b = seq then true else s.recvd a b,
-                             last := fun a b => if a = c ∧ b = p then some seq else s.last a b, count := s.count + 1 }
+  | .produced p n => { s with produced := s.produced.insert p n, prods := s.prods ++ [p] }
+  | .got c p seq => { s with recvd := s.recvd.insert (p, seq), last := s.last.insert (c, p) seq, count := s.count + 1 }
   | _ => s
 
 def step (s : St) (e : Ev) : Except String St :=
